@@ -298,8 +298,8 @@ def oracle(case, obs):
         if r["kind"] != "agg":
             if r.get("err") == "KeyError" and not obs["has_obs"]:
                 cause = "observed column absent"
-            elif "nonexistent time" in (r.get("msg") or ""):
-                cause = "first or closing bin edge is a nonexistent local midnight"
+            elif "nonexistent time" in (r.get("msg") or "") or "Cannot infer dst time" in (r.get("msg") or ""):
+                cause = "first or closing bin edge is a nonexistent or ambiguous local midnight"
             else:
                 cause = "other"
             fails.append((dict(base, defect="documented aggregation raises", error=r.get("err"), cause=cause),
@@ -490,7 +490,8 @@ def process(run, cases, mode):
     if not terms:
         return
     run.log("implementation runs done (%d data sets), evaluating the model in Coq" % len(terms))
-    bad = run.coq_cases("aggregate", IMPORTS, "", terms, "check_dataset", shard=max(6, min(40, len(terms) // 14 + 1)))
+    bad = run.coq_cases("aggregate", IMPORTS, "", terms, "check_dataset", shard=max(6, min(40, len(terms) // 14 + 1)),
+                        case_type="dataset")
     if bad is None:
         run.proof_ok = False
         return
